@@ -753,6 +753,9 @@ func (g *gen) control(d int, vars []string) N {
 		lam := N{"k": "lam", "ps": []any{}, "body": []any{N{"k": "retfrom", "name": "bq", "e": g.m(g.num(d-2, vars))}}}
 		return N{"k": "block", "name": "bq", "body": []any{g.m(N{"k": "call", "f": g.catcher, "args": []any{lam}}), g.m(lit(I(2)))}}
 	}
+	if g.one(10) {
+		return g.lambdaExit(d, vars)
+	}
 	switch g.rng.Intn(5) {
 	case 0, 1:
 		g.bctr++
@@ -801,6 +804,59 @@ func (g *gen) control(d int, vars []string) N {
 	default:
 		return g.orZero(N{"k": "ignerr", "body": g.body(d-1, vars)})
 	}
+}
+
+// lambdaExit: an anonymous lambda, called by funcall / apply / in operator position / mapc where it is written, leaves the
+// block (named, or named nil: block nil and the loops) it is written in from the middle of its body; the forms of the block
+// after the call are not evaluated, the block yields the value given
+func (g *gen) lambdaExit(d int, vars []string) N {
+	v := func(n string) N { return N{"k": "var", "n": n} }
+	p := g.fresh()
+	name := "nil"
+	if g.one(3) {
+		g.bctr++
+		name = fmt.Sprintf("b%d", g.bctr)
+	}
+	at := 1 + g.rng.Intn(3)
+	exit := N{"k": "retfrom", "name": name, "e": g.m(N{"k": "add", "a": v(p), "b": lit(I(10 * (1 + g.rng.Intn(5))))})}
+	lb := []any{N{"k": "when", "c": g.m(N{"k": "eq", "a": v(p), "b": lit(I(at))}), "body": []any{exit}}, g.m(N{"k": "add", "a": v(p), "b": lit(I(1))})}
+	lam := N{"k": "lam", "ps": []any{p}, "body": lb}
+	call := func(arg N) N {
+		switch g.rng.Intn(3) {
+		case 0:
+			return N{"k": "fcall", "f": lam, "args": []any{arg}, "spread": false}
+		case 1:
+			return N{"k": "fcall", "f": lam, "args": []any{N{"k": "list", "es": []any{arg}}}, "spread": true}
+		}
+		return N{"k": "fcall", "f": lam, "args": []any{arg}, "spread": false, "inline": true}
+	}
+	after := g.m(lit(I(g.rng.Intn(10))))
+	if name == "nil" && g.one(2) {
+		// (dolist (x (list 1 2 3) r) (funcall (lambda (p) (when (eq p k) (return v)) ...) x) (mark))
+		x := g.fresh()
+		es := []any{}
+		for i := 1; i <= 3; i++ {
+			es = append(es, lit(I(i)))
+		}
+		lp := N{"k": "dolist", "var": x, "l": N{"k": "list", "es": es}, "res": g.m(lit(I(77))), "body": []any{g.m(call(v(x))), after}}
+		if g.one(2) {
+			lp = N{"k": "dotimes", "var": x, "c": lit(I(4)), "res": g.m(lit(I(78))), "body": []any{g.m(call(v(x))), after}}
+		}
+		return g.orZero(lp)
+	}
+	arg := lit(I(1 + g.rng.Intn(3)))
+	body := []any{g.m(call(arg)), after}
+	if g.one(2) {
+		// the call sits under an unwind-protect of the block: the cleanup runs once, the forms after it do not
+		body = []any{N{"k": "protect", "e": g.m(call(arg)), "cleanup": []any{g.m(lit(I(5)))}}, after}
+	}
+	if name == "nil" && g.one(2) {
+		// the mapping function hands the exit on as well
+		es := []any{lit(I(1)), lit(I(2)), lit(I(3))}
+		body = []any{g.m(g.orZero(N{"k": "car", "a": N{"k": "mapc", "f": lam, "l": N{"k": "list", "es": es}}})), after}
+		return g.orZero(N{"k": "block", "name": name, "body": append(body, lit(I(4)))})
+	}
+	return N{"k": "block", "name": name, "body": body}
 }
 
 func (g *gen) cond(d int, vars []string) N {
